@@ -18,7 +18,9 @@ else:
     OSet = set
 
 from insights.core import dr  # noqa: E402
+from insights.core.context import SerializedArchiveContext  # noqa: E402
 from insights.contrib import toposort as ts  # noqa: E402
+from props._native import HashedCallable, hash_orders  # noqa: E402
 from insights.core.exceptions import SkipComponent, ContentException  # noqa: E402
 
 if not NATIVE:
@@ -46,7 +48,7 @@ def _seed_value(kind, i=0):
 class World(object):
     """Builds N real components from a shape description; bodies log their invocation."""
 
-    def __init__(self, n, edges, outcome_of, value_of):
+    def __init__(self, n, edges, outcome_of, value_of, hashes=None):
         # edges[(i, j)] = kind, j < i ; outcome_of(i) is called lazily when body i runs
         self.log = []
         self.comps = []
@@ -86,7 +88,13 @@ class World(object):
             body.__name__ = "c%d" % i
             body.__qualname__ = "c%d" % i
             body.__symx_order__ = i
-            self.comps.append(ctype(*deps, optional=opt)(body))
+            self.comps.append(ctype(*deps, optional=opt)(body if hashes is None else HashedCallable(body, hashes[i])))
+
+    def add_late(self, i, j):
+        """dr.add_dependency after the components exist (what a spec set does when it hooks a datasource into a registry point):
+        the new dependency joins the first at-least-one group"""
+        dr.add_dependency(self.comps[i], self.comps[j])
+        self.edges[(i, j)] = "group1"
 
     def observer(self, comp, broker):
         self.log.append(("attempt", self.comps.index(comp)))
@@ -95,7 +103,17 @@ class World(object):
         return [j for j in range(i) if self.edges.get((i, j), "none") != "none"]
 
 
-def check_log(world, in_graph, seeded):
+def pruned_by_archive(world, in_graph, seeded):
+    """with a SerializedArchiveContext in the broker dr.run takes the direct dependencies of every pre-seeded component out of the
+    evaluation: they do not take part (their observers may still fire, which is not an attempt)"""
+    out = set()
+    for i in in_graph:
+        if i in seeded:
+            out |= set(world.deps(i))
+    return out
+
+
+def check_log(world, in_graph, seeded, pruned=()):
     """The oracle of C01 on one finished run; returns a list of violated clauses (empty = holds)."""
     bad = []
     log = world.log
@@ -104,6 +122,17 @@ def check_log(world, in_graph, seeded):
         na = log.count(("attempt", i))
         if nb > 1:
             bad.append("component %d invoked %d times" % (i, nb))
+        if i in pruned:
+            # not part of this evaluation: at most the observer notification, never before... nothing is required of its order;
+            # if it is invoked all the same, the ordering clause below applies to it like to any other component
+            if na > 1:
+                bad.append("component %d notified %d times" % (i, na))
+            if nb:
+                at = log.index(("body", i))
+                for j in world.deps(i):
+                    if j in in_graph and j not in pruned and ("attempt", j) not in log[:at]:
+                        bad.append("component %d ran before its dependency %d was attempted" % (i, j))
+            continue
         if i in in_graph and na != 1:
             bad.append("component %d attempted %d times (observers fired)" % (i, na))
         if i in seeded and nb:
@@ -111,12 +140,12 @@ def check_log(world, in_graph, seeded):
         if nb:
             at = log.index(("body", i))
             for j in world.deps(i):
-                if j in in_graph and ("attempt", j) not in log[:at]:
+                if j in in_graph and j not in pruned and ("attempt", j) not in log[:at]:
                     bad.append("component %d ran before its dependency %d was attempted" % (i, j))
         if na and i in in_graph:
             at = log.index(("attempt", i))
             for j in world.deps(i):
-                if j in in_graph and ("attempt", j) not in log[:at]:
+                if j in in_graph and j not in pruned and ("attempt", j) not in log[:at]:
                     bad.append("component %d attempted before its dependency %d" % (i, j))
     return bad
 
@@ -133,22 +162,46 @@ def reach(world, targets):
     return seen
 
 
-def run_world(n, edges, outcomes, seeded, mode, disabled=(), seed_kinds=None):
+def warm_up(w, targets, how):
+    """an earlier use of the same components before a dependency is added late"""
+    if how == "graph":
+        for t in targets:
+            dr.get_dependency_graph(w.comps[t])
+    else:
+        dr.run([w.comps[t] for t in targets], broker=dr.Broker())
+        w.log[:] = []
+        w.args.clear()
+
+
+def run_world(n, edges, outcomes, seeded, mode, disabled=(), seed_kinds=None, late=None, archive=False, hashes=None):
     """Concrete run on whatever dr is imported (used natively for replay / sample validation)."""
-    w = World(n, edges, lambda i: outcomes.get(i, "value"), lambda i: 1000 + i)
+    edges = dict(edges)
+    if late:
+        edges.pop((late[0], late[1]), None)
+    w = World(n, edges, lambda i: outcomes.get(i, "value"), lambda i: 1000 + i, hashes)
+    targets = list(range(n)) if mode == "all" else [n - 1]
+    if late:
+        warm_up(w, targets, late[2])
+        w.add_late(late[0], late[1])
     broker = dr.Broker()
     broker.add_observer(w.observer, ctype)
+    if archive:
+        broker[SerializedArchiveContext] = SerializedArchiveContext()
     seeds = {}
     for i in seeded:
         seeds[i] = _seed_value((seed_kinds or {}).get(str(i), "int"), i)
         broker[w.comps[i]] = seeds[i]
     for i in disabled:
         dr.set_enabled(w.comps[i], False)
-    targets = list(range(n)) if mode == "all" else [n - 1]
     comps = [w.comps[i] for i in targets]
-    dr.run(comps if mode == "all" else comps[0], broker=broker)
+    try:
+        dr.run(comps if mode == "all" else comps[0], broker=broker)
+    except KeyError:
+        if not archive:
+            raise
+        return w, broker, []          # see make_o2: outside the statement
     in_graph = reach(w, targets)
-    bad = check_log(w, in_graph, set(seeded))
+    bad = check_log(w, in_graph, set(seeded), pruned_by_archive(w, in_graph, set(seeded)) if archive else ())
     for i in seeded:
         if broker.instances.get(w.comps[i], "absent") is not seeds[i]:
             bad.append("seed value of %d was overwritten" % i)
@@ -166,12 +219,22 @@ def _edges(en, n, kinds):
     return edges
 
 
-def make_o2(n, kinds, modes, order_mode="site", outcomes=None, max_seeded=None):
+def make_o2(n, kinds, modes, order_mode="site", outcomes=None, max_seeded=None, late=False, archive=False):
     outcomes = outcomes or OUTCOMES
 
     def o2(en):
         with REG:
             edges = _edges(en, n, kinds)
+            late_edge = None
+            if late:
+                # one at-least-one edge of the graph is declared late, after the components were already used once
+                cands = [(i, j) for (i, j), k in sorted(edges.items()) if k == "group1" and any(k2 == "group1" and i2 == i and j2 != j for (i2, j2), k2 in edges.items())]
+                if not cands:
+                    raise core.Abort()
+                i_, j_ = cands[en.choice("late_which", len(cands))]
+                late_edge = (i_, j_, ["graph", "run"][en.choice("late_warm", 2)])
+                edges = dict(edges)
+                del edges[(i_, j_)]
             if max_seeded is None:
                 seeded = [i for i in range(n) if en.flag("seeded_%d" % i)]
             else:
@@ -190,8 +253,16 @@ def make_o2(n, kinds, modes, order_mode="site", outcomes=None, max_seeded=None):
                 vals[i] = en.fresh_int("v%d" % i)
                 return vals[i]
             w = World(n, edges, outcome_of, value_of)
+            if late_edge:
+                warm_up(w, list(range(n)) if mode == "all" else [n - 1], late_edge[2])
+                w.add_late(late_edge[0], late_edge[1])
+                edges = w.edges
             broker = dr.Broker()
             broker.add_observer(w.observer, ctype)
+            if archive:
+                if not seeded:
+                    raise core.Abort()
+                broker[SerializedArchiveContext] = SerializedArchiveContext()
             seeds = {}
             seed_kind = {}
             for i in seeded:
@@ -206,7 +277,7 @@ def make_o2(n, kinds, modes, order_mode="site", outcomes=None, max_seeded=None):
             en.note_sample(lambda mv: {"n": n, "edges": [[i, j, k] for (i, j), k in sorted(edges.items())],
                                        "outcomes": dict((str(i), o) for i, o in chosen.items()), "seeded": seeded,
                                        "seed_kinds": dict((str(i), k) for i, k in seed_kind.items()), "mode": mode, "disabled": [i for i in range(n) if not mv.bool(enabled[i])],
-                                       "log": [list(x) for x in w.log]})
+                                       "late": late_edge, "archive": archive, "log": [list(x) for x in w.log]})
             raised = None
             with oset.symbolic_order(mode=order_mode):
                 try:
@@ -215,11 +286,15 @@ def make_o2(n, kinds, modes, order_mode="site", outcomes=None, max_seeded=None):
                     raised = ex
             case = lambda mv: {"kind": "run", "n": n, "edges": [[i, j, k] for (i, j), k in sorted(edges.items())],  # noqa
                                "outcomes": dict((str(i), o) for i, o in chosen.items()), "seeded": seeded, "mode": mode,
-                               "seed_kinds": dict((str(i), k) for i, k in seed_kind.items()),
+                               "seed_kinds": dict((str(i), k) for i, k in seed_kind.items()), "late": late_edge, "archive": archive,
                                "disabled": [i for i in range(n) if not mv.bool(enabled[i])], "log": [list(x) for x in w.log]}
+            if archive and isinstance(raised, KeyError):
+                # dr.run's pruning loop raises KeyError when a pre-seeded component directly depends on another pre-seeded one and
+                # the targets were given as a list (plain dict graph): nothing is evaluated; C01 states nothing about it
+                return
             en.must_hold(raised is None, "run-returns", case, detail=repr(raised))
             in_graph = reach(w, targets)
-            bad = check_log(w, in_graph, set(seeded))
+            bad = check_log(w, in_graph, set(seeded), pruned_by_archive(w, in_graph, set(seeded)) if archive else ())
             en.must_hold(not bad, "once-and-ordered", case, detail=bad)
             for i in seeded:
                 got = broker.instances.get(w.comps[i], "absent")
@@ -365,6 +440,20 @@ def obligations(tier):
                                "enabled": "symbolic", "set order": "every global total order"},
                        stubs=stubs, encoded=enc, budget_s=1500, replay="run", check_sample=True),
         ]
+    obls += [
+        Obligation("O5-late-dependency", make_o2(4 if thorough else 3, ["none", "required", "group1"], ["all", "last"], "global", ["value", "skip"], 0, late=True),
+                   ["run-returns", "once-and-ordered"],
+                   desc="a dependency declared late with dr.add_dependency, after the components were already used once (their graph was built, or they were evaluated): the next evaluation still runs the new dependency first",
+                   bounds={"components": 4 if thorough else 3, "edge kinds": ["none", "required", "group1"], "late edge": "any at-least-one edge of a group with another member", "earlier use": ["get_dependency_graph", "a complete dr.run on another broker"],
+                           "outcomes": ["value", "skip"], "set order": "every global total order"},
+                   stubs=stubs, encoded=enc + [dr.add_dependency, dr.ComponentType.add_dependency], budget_s=600 if thorough else 100, replay="run", check_sample=True),
+        Obligation("O6-archive-prune", make_o2(4 if thorough else 3, ["none", "required", "optional"], ["all", "last"], "global", ["value", "skip"], None, archive=True),
+                   ["run-returns", "once-and-ordered", "seed-kept"],
+                   desc="evaluation of a hydrated archive: with a SerializedArchiveContext in the broker dr.run takes the direct dependencies of pre-seeded components out of the evaluation; whatever still runs runs after its participating dependencies",
+                   bounds={"components": 4 if thorough else 3, "edge kinds": ["none", "required", "optional"], "pre-seeded": "any non-empty subset", "outcomes": ["value", "skip"], "set order": "every global total order"},
+                   outside=["a pre-seeded component that directly depends on another pre-seeded one with the targets given as a list: dr.run raises KeyError in its pruning loop before anything is evaluated (not a statement of C01; see DESIGN.md, observations)"],
+                   stubs=stubs, encoded=enc, budget_s=600 if thorough else 100, replay="run", check_sample=True),
+    ]
     n2 = 4 if thorough else 3
     return obls + [
         Obligation("O3-broker-setitem", make_o3(), ["overwrite-refused"],
@@ -408,12 +497,12 @@ def validate(tier):
 
 
 # ------------------------------------------------------------------ native side: replay / sample validation
-def _native_case(case):
+def _native_case(case, hashes=None):
     if case["kind"] == "run" or "edges" in case and "mode" in case:
         edges = dict(((i, j), k) for i, j, k in case["edges"])
         outcomes = dict((int(i), o) for i, o in case["outcomes"].items())
         w, b, bad = run_world(case["n"], edges, outcomes, case["seeded"], case["mode"], disabled=case.get("disabled", ()),
-                              seed_kinds=case.get("seed_kinds"))
+                              seed_kinds=case.get("seed_kinds"), late=case.get("late"), archive=case.get("archive", False), hashes=hashes)
         return w, bad
     raise ValueError(case)
 
@@ -424,11 +513,11 @@ def replay(rec):
     if kind == "run":
         # the native run uses CPython's own set order; a schedule-dependent violation is searched over hash-independent
         # re-runs (component objects are fresh each time, so their addresses/hashes vary)
-        for _ in range(40):
-            w, bad = _native_case(case)
+        for hs in hash_orders(case["n"]):
+            w, bad = _native_case(case, hs)
             if bad:
-                return {"reproduced": True, "detail": bad, "signature": rec["label"]}
-        return {"reproduced": False, "detail": "oracle satisfied on 40 native runs"}
+                return {"reproduced": True, "detail": bad + (["component hash order %s" % (hs,)] if hs else []), "signature": rec["label"]}
+        return {"reproduced": False, "detail": "oracle satisfied natively under every component hash order"}
     if kind == "toposort":
         import itertools
         data = dict((k, set(v)) for k, v in case["data"])
@@ -474,7 +563,7 @@ def check_samples(payload):
     ok = 0
     mism = []
     for s in payload["samples"]:
-        if payload["obligation"] == "O2-run":
+        if payload["obligation"].startswith("O2") or payload["obligation"] in ("O5-late-dependency", "O6-archive-prune"):
             s = dict(s)
             s["kind"] = "run"
             w, bad = _native_case(s)
